@@ -19,7 +19,7 @@ RULE = ("(store, request) pairs: stores of 0..60 objects with and without option
 ASSUMPTIONS = ["dotted paths address dictionaries only (CHOICE values decoded as (name, value) sequences are not addressable)",
                "ordering comparisons against a reference value of another type match nothing; order attributes are chosen among attributes present in every selected object",
                "tuple/list differences introduced by TinyDB's JSON storage are normalised before comparison"]
-REQUIRED_COUNTERS = ["requests", "dictionary_compared", "tinydb_compared", "backends_compared", "filters_selecting_proper_subset", "ordered_requests", "objects_lacking_attribute"]
+REQUIRED_COUNTERS = ["requests", "dictionary_compared", "tinydb_compared", "backends_compared", "filters_selecting_proper_subset", "ordered_requests", "objects_lacking_attribute", "updates_between_requests", "repeated_requests"]
 
 TYPES = (2, 1, 16, 3, 14)
 OPS = ("==", "!=", ">", "<", ">=", "<=", "like", "notlike")
@@ -200,7 +200,8 @@ def run_case(c, res):
     from vf.vclock import VClock
     from vf import ldmharness as H
     from flexstack.facilities.local_dynamic_map.ldm_classes import (RegisterDataProviderReq, RegisterDataConsumerReq, AddDataProviderReq,
-                                                                     DeleteDataProviderReq, TimestampIts, TimeValidity, AccessPermission)
+                                                                     DeleteDataProviderReq, UpdateDataProviderReq, TimestampIts, TimeValidity, AccessPermission)
+    import copy
     rng = random.Random(c["seed"])
     objs = gen_store(rng)
     clock = VClock().install()
@@ -227,8 +228,34 @@ def run_case(c, res):
                 victim = recs.pop(rng.randrange(len(recs)))
                 for name, ldm in ldms.items():
                     ldm.if_ldm_3.delete_provider_data(DeleteDataProviderReq(2, victim["ids"][name], TimestampIts(now)))
+        mrng = random.Random(c["seed"] ^ 0x5EED)      # the history between requests has its own stream (requests stay as they were)
+        prev_rq = None
         for q in range(c["requests"]):
+            # the store keeps changing between requests -- the same operation on both back-ends and on the model
+            m = mrng.random()
+            if recs and m < 0.15:
+                victim = recs[mrng.randrange(len(recs))]
+                msg = H.message(mrng, victim["type"])
+                oks = []
+                for name, ldm in ldms.items():
+                    r_ = ldm.if_ldm_3.update_provider_data(UpdateDataProviderReq(2, victim["ids"][name], TimestampIts(now), H.location(H.LDM_LAT + 5000, H.LDM_LON + 5000),
+                                                                                  copy.deepcopy(msg), TimeValidity(600)))
+                    oks.append(int(r_.result) == 0)
+                if all(oks):
+                    victim["rec"]["dataObject"] = norm(copy.deepcopy(msg))
+                    res.count("updates_between_requests")
+                else:
+                    res.violation("C13:update-of-stored-object-refused", f"{oks}", {"seed": c["seed"], "request_index": q})
+            elif recs and m < 0.20:
+                victim = recs.pop(mrng.randrange(len(recs)))
+                for name, ldm in ldms.items():
+                    ldm.if_ldm_3.delete_provider_data(DeleteDataProviderReq(2, victim["ids"][name], TimestampIts(now)))
+                res.count("deletes_between_requests")
             rq = gen_request(rng, objs)
+            if prev_rq is not None and mrng.random() < 0.3:
+                rq = prev_rq                 # the same request again (after the store may have changed)
+                res.count("repeated_requests")
+            prev_rq = rq
             ctx = {"seed": c["seed"], "request_index": q, "request": rq, "store_size": len(recs)}
             res.count("requests")
             sel = [r for r in recs if r["type"] in rq["types"]]
